@@ -1,7 +1,5 @@
-(* Entry point of the extracted model for property C04: run_C04 case = observation. *)
+(* Entry point of the extracted model for property C04: the shared Muxer scenario runner (Extract/RunMux.v). *)
 From Coq Require Import ZArith List.
-Require Import Base.Tok Base.Iter Extract.RunBase.
-Import ListNotations.
-Open Scope Z_scope.
+Require Import Base.Tok Extract.RunMux.
 
-Definition run_C04 (t : tok) : tok := TL [].
+Definition run_C04 (t : tok) : tok := run_mux t.
